@@ -257,14 +257,17 @@ def fallback(ctx, crate, E):
             for cb, ct in fa.calls():
                 if ct["args"] and fa.origin(ct["args"][0])[:2] == ("call", b):
                     consumer = sorted(_names(ct))[0]
-            if consumer in ("unwrap_or_default", "unwrap_or", "unwrap_or_else", "map_or", "map_or_else", "unwrap"):
+            if consumer in ("unwrap_or_default", "unwrap", "expect"):
                 ctx.ob("FALLBACK", "%s|rewrite-call|%d" % (P_EXT, k), False, fa.loc(b),
                        "the result of rewrite() is consumed by %s: when no rule matches, the "
                        "features are replaced (or the call panics) instead of being used unchanged"
                        % consumer)
                 k += 1
                 continue
-            raise EngineError("FALLBACK: the match on rewrite()'s result was not found at %s" % fa.loc(b))
+            # consumed by a combinator with an explicit fallback (`unwrap_or(features)`, `as_ref()
+            # .unwrap_or(&features)`): what the fallback is, is decided by REWSOURCES below
+            k += 1
+            continue
         sb, st = sw
         arms = dict(zip(st["vals"], st["targets"]))
         some_t = arms.get(1)
@@ -294,6 +297,110 @@ def fallback(ctx, crate, E):
                "the two arms after rewrite() are not `rewritten -> extractor / original -> same "
                "extractor` (%s)" % why)
         k += 1
+
+
+def rewsources(ctx, crate, E):
+    """REWSOURCES (C17, C18): each of the three extractor calls of Trainer::extract_feature_set
+    gets either the list its *own* section's rewriter produced or the *original* features - and
+    every rewriter is applied to the original features. Decided on the backward slice of the
+    argument, whatever the control shape (match, if-let, unwrap_or): the slice must end in the
+    own rewriter's rewrite() call and in the parsed row, nowhere else (another section's output,
+    a default)."""
+    p = _fn(crate, P_EXT)
+    fa = E.fa(p)
+    names = crate.fns[p].j.get("param_names") or []
+
+    def slice_of(op):
+        """terminal sources of an operand: ('rw', block) | ('orig', block) | ('other', text)"""
+        out = set()
+        seen = set()
+        work = [op]
+        while work:
+            o = work.pop()
+            pl = op_place(o)
+            if pl is None:
+                continue
+            l = pl["l"]
+            if l in seen:
+                continue
+            seen.add(l)
+            if 1 <= l <= fa.arg_count and not fa.defs().get(l):
+                out.add(("other", "parameter %s" % (names[l - 1] if l - 1 < len(names) else l)))
+                continue
+            for (b, i, kind, payload) in fa.defs().get(l, []):
+                if kind == "partial":
+                    continue
+                if kind == "call":
+                    nm = sorted(_names(payload))[0]
+                    if any(strip_generics(x).endswith("FeatureRewriter::rewrite") for x in callee_paths(payload)):
+                        out.add(("rw", b))
+                    elif nm == "parse_csv_row":
+                        out.add(("orig", b))
+                    elif nm in ("default", "new", "unwrap_or_default", "with_capacity", "from_elem"):
+                        out.add(("other", "a fresh %s()" % nm))
+                    else:
+                        work.extend(payload["args"])
+                else:
+                    rv = payload
+                    for key in ("op", "a", "b"):
+                        if key in rv and isinstance(rv[key], dict):
+                            work.append(rv[key])
+                    if rv["k"] in ("ref", "rawptr"):
+                        work.append({"c": rv["place"]})
+                    if rv["k"] == "agg":
+                        work.extend(rv["ops"])
+        return out
+
+    rws = {}
+    for b, t in fa.calls():
+        if any(strip_generics(x).endswith("FeatureRewriter::rewrite") for x in callee_paths(t)):
+            o = fa.origin(t["args"][0])
+            who = names[o[1] - 1] if o[0] == "arg" and o[1] - 1 < len(names) else "?"
+            rws[b] = (who, t)
+    n = 0
+    for b, (who, t) in sorted(rws.items()):
+        src = slice_of(t["args"][1])
+        ok = bool(src) and all(x[0] == "orig" for x in src)
+        n += 1
+        ctx.ob("REWSOURCES", "%s|%s|applied-to-original-features" % (P_EXT, who), ok, fa.loc(b),
+               "%s.rewrite() is applied to the parsed row" % who if ok else
+               "%s.rewrite() is not applied to the original features alone but to %s: the sections "
+               "of rewrite.def are independent, each sees the features as they are in the lexicon"
+               % (who, sorted("%s's output" % rws[x[1]][0] if x[0] == "rw" else x[1] if x[0] == "other" else "the row"
+                              for x in src)))
+    by_kind = {}
+    for b, t in fa.calls():
+        nm = sorted(_names(t))[0]
+        if not (nm.startswith("extract_") and nm.endswith("_feature_ids")) or len(t["args"]) < 2:
+            continue
+        by_kind.setdefault(nm, []).append((b, t))
+    for nm, sites in sorted(by_kind.items()):
+        b = sites[0][0]
+        kind = nm[len("extract_"):-len("_feature_ids")]
+        src = set()
+        for _b, _t in sites:           # one call per arm or one call for both: judge the union
+            src |= slice_of(_t["args"][1])
+        own = {x for x in src if x[0] == "rw" and kind in rws[x[1]][0]}
+        foreign = {x for x in src if x[0] == "rw" and kind not in rws[x[1]][0]}
+        other = {x for x in src if x[0] == "other"}
+        has_orig = any(x[0] == "orig" for x in src)
+        ok = bool(own) and has_orig and not foreign and not other
+        n += 1
+        why = []
+        if not own:
+            why.append("never the output of the %s rewriter" % kind)
+        if not has_orig:
+            why.append("never the original features (no fallback)")
+        if foreign:
+            why.append("the output of %s" % sorted(rws[x[1]][0] for x in foreign))
+        if other:
+            why.append(", ".join(sorted(x[1] for x in other)))
+        ctx.ob("REWSOURCES", "%s|%s|own-rewrite-or-original" % (P_EXT, nm), ok, fa.loc(b),
+               "%s receives the %s rewriter's output or, when no rule matched, the original features"
+               % (nm, kind) if ok else
+               "%s can receive %s: when no %s rule matches the features must be used unchanged, and "
+               "another section's rules never apply" % (nm, "; ".join(why), kind))
+    ctx.floor("REWSOURCES", "rewrite and extractor calls judged", n, 6)
 
 
 def sections(ctx, crate, E):
@@ -372,15 +479,21 @@ def rulecells(ctx, crate, E):
     f = crate.fns.get(p)
     if f is None or not f.body:
         raise EngineError("RULECELLS: anchor lost: %s" % p)
-    fa = E.fa(p)
     shrink = []
-    for b, t in fa.calls():
-        nm = sorted(_names(t))[0]
-        if nm in ("pop", "truncate", "retain", "retain_mut", "drain", "remove", "swap_remove", "dedup",
-                  "clear", "split_off", "trim_end_matches", "trim_matches", "strip_suffix", "take_while",
-                  "skip_while", "filter", "rsplitn", "splitn"):
-            shrink.append("%s (%s)" % (nm, fa.loc(b)))
-    splits = [b for b, t in fa.calls() if sorted(_names(t))[0] == "split" and len(t["args"]) > 1]
+    splits = []
+    region = [p] + sorted(q for q in crate.fns if q.startswith(p + "::{closure") and crate.fns[q].body)
+    for q in region:
+        fa = E.fa(q)
+        for b, t in fa.calls():
+            nm = sorted(_names(t))[0]
+            if nm in ("pop", "truncate", "retain", "retain_mut", "drain", "remove", "swap_remove", "dedup",
+                      "clear", "split_off", "trim_end_matches", "trim_matches", "strip_suffix", "take_while",
+                      "skip_while", "filter", "rsplitn", "splitn"):
+                shrink.append("%s (%s)" % (nm, fa.loc(b)))
+            if nm == "split" and len(t["args"]) > 1:
+                splits.append(b)
+    if len(region) > 1 and len(splits) == 1:
+        splits = splits * 2        # one split in a closure applied to both columns
     ctx.floor("RULECELLS", "comma splits in parse_rewrite_rule", len(splits), 2)
     ctx.ob("RULECELLS", "%s|all-cells-kept" % p, not shrink, _loc(crate, p),
            "parse_rewrite_rule returns every comma-separated cell of the pattern and of the rewrite"
@@ -394,7 +507,7 @@ def run(ctx):
     crate = ctx.facts("A").lib
     E = Effects(crate)
     errs = []
-    for sub in (build, scan, refsubst, fallback, sections, rulecells):
+    for sub in (build, scan, refsubst, fallback, rewsources, sections, rulecells):
         try:
             sub(ctx, crate, E)
         except EngineError as e:
